@@ -17,6 +17,7 @@ DRIVER = os.path.join(core.VERIF, "vlib", "drivers", "c12_driver.py")
 TRACE_CALLS = "openat,write,fsync,fdatasync,rename,renameat,renameat2,unlink,unlinkat,mkdir,mkdirat,rmdir,newfstatat,stat"
 READ_CALLS = "read,pread64,getdents64,lstat,statx,access,faccessat,faccessat2"     # read-side calls, on top of openat / newfstatat / stat
 TMP_PREFIX = ".Radicale.tmp-"
+DELETED = " (deleted)"       # what /proc/<pid>/fd/<n> (strace -y) appends for an unlinked inode
 
 
 # ====================================================================== names and paths
@@ -338,14 +339,30 @@ def project(events, folder, names, contents, start_mark=None, end_mark=None, reb
             continue
         pending_write = None
         if e.call in ("fsync", "fdatasync"):
-            m = re.match(r"(\d+)<([^>]*)>", e.args)
+            m = re.match(r"(\d+)<([^>]*)>(\(deleted\))?", e.args)
             if not m:
                 continue
             r = rel_of(m.group(2))
             if r is None or is_lock(r):
                 continue
-            isw = fdinfo.get(int(m.group(1)), (r, False))[1]
-            steps.append(dict(step=("FsyncF" if isw else "FsyncD", npath(r)), ok=ok, sys=[sysc]))
+            # identity of the fsync target: strace -y resolves the descriptor WHEN THE CALL IS MADE (readlink of /proc/pid/fd/N),
+            # so `r` names the inode the fsync reaches, not the path the descriptor was opened with, and an inode that is not
+            # linked any more is marked "(deleted)" behind the annotation (strace >= 5.x; older: inside it).  A directory
+            # that was replaced / removed since the open shows up below a temp directory and / or as deleted: the step is the
+            # fsync of THAT object (never of the path the descriptor was opened with, which may name another directory now);
+            # the opened path is kept for the report.
+            opened, isw = fdinfo.get(int(m.group(1)), (r, False))
+            gone = bool(m.group(3)) or (r.endswith(DELETED) and r != opened)
+            if gone:
+                # not linked anywhere: a name outside the visible tree (not a legal collection name) next to where it was
+                was = r[:-len(DELETED)] if r.endswith(DELETED) and not m.group(3) else r
+                p = npath(os.path.dirname(was)) + (names.comp("~unlinked~" + os.path.basename(was) + "~", None),)
+            else:
+                p = npath(r)
+            s_ = dict(step=("FsyncF" if isw else "FsyncD", p), ok=ok, sys=[sysc])
+            if opened != r or gone:
+                s_["opened"], s_["now"] = opened, r + (DELETED if gone and not r.endswith(DELETED) else "")
+            steps.append(s_)
         elif e.call in ("rename", "renameat", "renameat2"):
             if e.call == "rename":
                 a, b = e.paths[0], e.paths[1]
